@@ -47,14 +47,103 @@ structure CDecl where
   wsEnd : Str
   deriving Inhabited
 
+
+/-! ### concrete syntax of the DOCTYPE declaration and its internal subset -/
+inductive Occ where
+  | one | opt | star | plus
+  deriving Inhabited, DecidableEq
+
+def Occ.str : Occ → Str
+  | .one => [] | .opt => ['?'] | .star => ['*'] | .plus => ['+']
+
+mutual
+/-- content particle: a name or a parenthesised choice / sequence, with an occurrence indicator -/
+inductive CCp where
+  | name (n : QN) (o : Occ)
+  /-- `(` ws0 first (w1 sep w2 cp)* ws1 `)` o, `sep` = `|` if `choice` else `,` -/
+  | group (ws0 : Str) (first : CCp) (choice : Bool) (rest : CCpTail) (ws1 : Str) (o : Occ)
+inductive CCpTail where
+  | nil
+  | cons (w1 w2 : Str) (p : CCp) (t : CCpTail)
+end
+
+inductive CSpec where
+  | empty | any
+  /-- `(` ws0 `#PCDATA` (w1 `|` w2 Name)* ws1 `)*` -/
+  | mixedStar (ws0 : Str) (names : List (Str × Str × QN)) (ws1 : Str)
+  /-- `(` ws0 `#PCDATA` ws1 `)` -/
+  | mixedPlain (ws0 ws1 : Str)
+  /-- a group with its occurrence indicator -/
+  | children (ws0 : Str) (first : CCp) (choice : Bool) (rest : CCpTail) (ws1 : Str) (o : Occ)
+
+inductive CAttType where
+  | kw (t : AttType)
+  /-- `NOTATION` ws0 `(` ws1 Name (w `|` w' Name)* ws2 `)` -/
+  | notationTy (ws0 ws1 : Str) (first : Str) (rest : List (Str × Str × Str)) (ws2 : Str)
+  /-- `(` ws0 Nmtoken (w `|` w' Nmtoken)* ws1 `)` -/
+  | enumeration (ws0 : Str) (first : Str) (rest : List (Str × Str × Str)) (ws1 : Str)
+
+inductive CDefault where
+  | required | implied
+  /-- (`#FIXED` ws)? quote value quote -/
+  | value (fixed : Option Str) (q : Char) (vals : List Piece)
+
+structure CAttDef where
+  ws0 : Str
+  name : QN
+  ws1 : Str
+  ty : CAttType
+  ws2 : Str
+  dflt : CDefault
+
+inductive CExtId where
+  /-- `SYSTEM` ws quote literal quote -/
+  | sysId (ws : Str) (q : Char) (lit : Str)
+  /-- `PUBLIC` ws quote pubid quote ws2 quote literal quote -/
+  | pubId (ws : Str) (qp : Char) (pub : Str) (ws2 : Str) (qs : Char) (sys : Str)
+
+inductive CEntDef where
+  | internal (q : Char) (vals : List Piece)
+  /-- external id, then optionally ws `NDATA` ws' Name -/
+  | external (id : CExtId) (ndata : Option (Str × Str × Str))
+
+inductive CNotId where
+  | ext (id : CExtId)
+  /-- `PUBLIC` ws quote pubid quote -/
+  | pubOnly (ws : Str) (q : Char) (pub : Str)
+
+inductive CDtdItem where
+  | ws (w : Str)
+  | comment (s : Str)
+  | pi (target : Str) (body : Str)
+  /-- `<!ELEMENT` ws0 name ws1 spec ws2 `>` -/
+  | elementDecl (ws0 : Str) (name : QN) (ws1 : Str) (spec : CSpec) (ws2 : Str)
+  /-- `<!ATTLIST` ws0 name defs ws1 `>` -/
+  | attlist (ws0 : Str) (elem : QN) (defs : List CAttDef) (ws1 : Str)
+  /-- `<!ENTITY` ws0 name ws1 def ws2 `>` -/
+  | entity (ws0 : Str) (name : Str) (ws1 : Str) (d : CEntDef) (ws2 : Str)
+  /-- `<!NOTATION` ws0 name ws1 id ws2 `>` -/
+  | notationDecl (ws0 : Str) (name : Str) (ws1 : Str) (id : CNotId) (ws2 : Str)
+
+/-- `<!DOCTYPE` ws0 name (wsE extid)? ws1 (`[` items `]` ws2)? `>` -/
+structure CDoctype where
+  ws0 : Str
+  name : QN
+  ext : Option (Str × CExtId)
+  ws1 : Str
+  subset : Option (List CDtdItem × Str)
+
 structure CDoc where
   decl : Option CDecl
   before : List CMisc
   root : CItem
   after : List CMisc
-  deriving Inhabited
+  /-- the DOCTYPE declaration and the Misc items between it and the document element -/
+  doctype : Option (CDoctype × List CMisc)
 
 /-! ### writing -/
+def isQuote (q : Char) : Bool := q == '"' || q == '\''
+
 def CAttr.str (a : CAttr) : Str :=
   a.ws ++ (a.name.text ++ (a.ws1 ++ ('=' :: (a.ws2 ++ (a.q :: (printPieces a.vals ++ [a.q]))))))
 
@@ -113,7 +202,6 @@ def declText : Option CDecl → Str
   | none => []
   | some x => x.str
 
-def CDoc.str (d : CDoc) : Str := declText d.decl ++ (miscText d.before ++ (d.root.str ++ miscText d.after))
 
 /-! ### forgetting the layout -/
 def CAttr.erase (a : CAttr) : Attr := ⟨a.name, a.vals⟩
@@ -138,11 +226,6 @@ def CMisc.erase : CMisc → Option TopItem
   | .comment s => some (.comment s)
   | .pi t b => some (.pi t (piData b))
   | .ws _ => none
-
-def CDoc.erase (d : CDoc) : IDoc :=
-  ⟨d.decl.map (fun x => '1' :: '.' :: x.minor), d.decl.bind (fun x => x.enc.map (fun e => e.2.2.2.2)),
-   d.decl.bind (fun x => x.sd.map (fun e => e.2.2.2.2)),
-   d.before.filterMap CMisc.erase ++ [.elem d.root.erase] ++ d.after.filterMap CMisc.erase⟩
 
 /-! ### which concrete documents are renderings (the lexical side conditions of the productions) -/
 abbrev ncRestC : Char → Bool := P.except P.isNameChar [':']
@@ -216,6 +299,253 @@ def isElemItem : CItem → Bool
   | .elem .. => true
   | _ => false
 
+/-! ### writing the DOCTYPE declaration -/
+def kwELEMENT : Str := ['<', '!', 'E', 'L', 'E', 'M', 'E', 'N', 'T']
+def kwATTLIST : Str := ['<', '!', 'A', 'T', 'T', 'L', 'I', 'S', 'T']
+def kwENTITY : Str := ['<', '!', 'E', 'N', 'T', 'I', 'T', 'Y']
+def kwNOTATION : Str := ['<', '!', 'N', 'O', 'T', 'A', 'T', 'I', 'O', 'N']
+def kwDOCTYPE : Str := ['<', '!', 'D', 'O', 'C', 'T', 'Y', 'P', 'E']
+def kwPCDATA : Str := ['#', 'P', 'C', 'D', 'A', 'T', 'A']
+def kwSYSTEM : Str := ['S', 'Y', 'S', 'T', 'E', 'M']
+def kwPUBLIC : Str := ['P', 'U', 'B', 'L', 'I', 'C']
+def kwNDATA : Str := ['N', 'D', 'A', 'T', 'A']
+def kwNOTATIONty : Str := ['N', 'O', 'T', 'A', 'T', 'I', 'O', 'N']
+def kwFIXED : Str := ['#', 'F', 'I', 'X', 'E', 'D']
+def kwREQUIRED : Str := ['#', 'R', 'E', 'Q', 'U', 'I', 'R', 'E', 'D']
+def kwIMPLIED : Str := ['#', 'I', 'M', 'P', 'L', 'I', 'E', 'D']
+
+def sepChar (choice : Bool) : Char := if choice then '|' else ','
+
+mutual
+def CCp.str : CCp → Str
+  | .name n o => n.text ++ o.str
+  | .group w0 f ch rest w1 o => '(' :: (w0 ++ (f.str ++ (CCpTail.str ch rest ++ (w1 ++ (')' :: o.str)))))
+def CCpTail.str (ch : Bool) : CCpTail → Str
+  | .nil => []
+  | .cons a b p t => a ++ (sepChar ch :: (b ++ (p.str ++ CCpTail.str ch t)))
+end
+
+/-- (S? `|` S? token)* -/
+def sepTextG {α : Type} (txt : α → Str) : List (Str × Str × α) → Str
+  | [] => []
+  | (a, b, n) :: r => a ++ ('|' :: (b ++ (txt n ++ sepTextG txt r)))
+
+def namesText (l : List (Str × Str × QN)) : Str := sepTextG QN.text l
+
+def CSpec.str : CSpec → Str
+  | .empty => ['E', 'M', 'P', 'T', 'Y']
+  | .any => ['A', 'N', 'Y']
+  | .mixedStar w0 names w1 => '(' :: (w0 ++ (kwPCDATA ++ (namesText names ++ (w1 ++ [')', '*']))))
+  | .mixedPlain w0 w1 => '(' :: (w0 ++ (kwPCDATA ++ (w1 ++ [')'])))
+  | .children w0 f ch rest w1 o => (CCp.group w0 f ch rest w1 o).str
+
+def tokensText (l : List (Str × Str × Str)) : Str := sepTextG id l
+
+def CAttType.str : CAttType → Str
+  | .kw t => printAttType t
+  | .notationTy w0 w1 f rest w2 => kwNOTATIONty ++ (w0 ++ ('(' :: (w1 ++ (f ++ (tokensText rest ++ (w2 ++ [')']))))))
+  | .enumeration w0 f rest w1 => '(' :: (w0 ++ (f ++ (tokensText rest ++ (w1 ++ [')']))))
+
+def CDefault.str : CDefault → Str
+  | .required => kwREQUIRED
+  | .implied => kwIMPLIED
+  | .value fixed q vals => (match fixed with | some w => kwFIXED ++ w | none => []) ++ (q :: (printPieces vals ++ [q]))
+
+def CAttDef.str (a : CAttDef) : Str := a.ws0 ++ (a.name.text ++ (a.ws1 ++ (a.ty.str ++ (a.ws2 ++ a.dflt.str))))
+
+def attDefsText : List CAttDef → Str
+  | [] => []
+  | a :: r => a.str ++ attDefsText r
+
+def CExtId.str : CExtId → Str
+  | .sysId w q l => kwSYSTEM ++ (w ++ (q :: (l ++ [q])))
+  | .pubId w qp p w2 qs l => kwPUBLIC ++ (w ++ (qp :: (p ++ (qp :: (w2 ++ (qs :: (l ++ [qs])))))))
+
+def CEntDef.str : CEntDef → Str
+  | .internal q vals => q :: (printPieces vals ++ [q])
+  | .external id nd => id.str ++ (match nd with | some (a, b, n) => a ++ (kwNDATA ++ (b ++ n)) | none => [])
+
+def CNotId.str : CNotId → Str
+  | .ext id => id.str
+  | .pubOnly w q p => kwPUBLIC ++ (w ++ (q :: (p ++ [q])))
+
+def CDtdItem.str : CDtdItem → Str
+  | .ws w => w
+  | .comment s => commentText s
+  | .pi t b => piText t b
+  | .elementDecl w0 n w1 spec w2 => kwELEMENT ++ (w0 ++ (n.text ++ (w1 ++ (spec.str ++ (w2 ++ ['>'])))))
+  | .attlist w0 e defs w1 => kwATTLIST ++ (w0 ++ (e.text ++ (attDefsText defs ++ (w1 ++ ['>']))))
+  | .entity w0 n w1 d w2 => kwENTITY ++ (w0 ++ (n ++ (w1 ++ (d.str ++ (w2 ++ ['>'])))))
+  | .notationDecl w0 n w1 id w2 => kwNOTATION ++ (w0 ++ (n ++ (w1 ++ (id.str ++ (w2 ++ ['>'])))))
+
+def dtdText : List CDtdItem → Str
+  | [] => []
+  | i :: r => i.str ++ dtdText r
+
+def extText : Option (Str × CExtId) → Str
+  | none => []
+  | some (w, id) => w ++ id.str
+
+def subsetText : Option (List CDtdItem × Str) → Str
+  | none => []
+  | some (items, w2) => '[' :: (dtdText items ++ (']' :: w2))
+
+def CDoctype.str (d : CDoctype) : Str :=
+  kwDOCTYPE ++ (d.ws0 ++ (d.name.text ++ (extText d.ext ++ (d.ws1 ++ (subsetText d.subset ++ ['>'])))))
+
+/-! ### forgetting the layout of the DOCTYPE declaration -/
+def CAttType.erase : CAttType → AttType
+  | .kw t => t
+  | .notationTy _ _ f rest _ => .notation (f :: rest.map (·.2.2))
+  | .enumeration _ f rest _ => .enumeration (f :: rest.map (·.2.2))
+
+def CDefault.erase : CDefault → AttDefault
+  | .required => .required
+  | .implied => .implied
+  | .value fixed _ vals => .value fixed.isSome vals
+
+def CAttDef.erase (a : CAttDef) : AttDef := ⟨a.name, a.ty.erase, a.dflt.erase⟩
+
+def CExtId.erase : CExtId → Option Str × Str
+  | .sysId _ _ l => (none, l)
+  | .pubId _ _ p _ _ l => (some p, l)
+
+def CEntDef.erase : CEntDef → EntDef
+  | .internal _ vals => .internal vals
+  | .external id nd => .external id.erase.1 id.erase.2 (nd.map (·.2.2))
+
+def CDtdItem.erase : CDtdItem → Option DtdItem
+  | .ws _ => none
+  | .comment _ => none
+  | .pi t b => some (.pi t (piData b))
+  | .elementDecl .. => none
+  | .attlist _ e defs _ => some (.attlist e (defs.map CAttDef.erase))
+  | .entity _ n _ d _ => some (.entity n d.erase)
+  | .notationDecl _ n _ (.ext id) _ => some (.notation n id.erase.1 (some id.erase.2))
+  | .notationDecl _ n _ (.pubOnly _ _ p) _ => some (.notation n (some p) none)
+
+def extErasePub : Option (Str × CExtId) → Option Str
+  | some (_, id) => id.erase.1
+  | none => none
+
+def extEraseSys : Option (Str × CExtId) → Option Str
+  | some (_, id) => some id.erase.2
+  | none => none
+
+def subsetErase : Option (List CDtdItem × Str) → List DtdItem
+  | some (items, _) => items.filterMap CDtdItem.erase
+  | none => []
+
+def CDoctype.erase (d : CDoctype) : Doctype := ⟨d.name, extErasePub d.ext, extEraseSys d.ext, subsetErase d.subset⟩
+
+/-! ### lexical side conditions of the DOCTYPE productions -/
+def okWs1 (w : Str) : Bool := !w.isEmpty && okWs w
+
+mutual
+def okCp : CCp → Bool
+  | .name n _ => okQN n
+  | .group w0 f ch rest w1 _ => okWs w0 && okCp f && okTail rest && okWs w1 && (!ch || (match rest with | .nil => false | _ => true))
+def okTail : CCpTail → Bool
+  | .nil => true
+  | .cons a b p t => okWs a && okWs b && okCp p && okTail t
+end
+
+def okSpec : CSpec → Bool
+  | .empty => true
+  | .any => true
+  | .mixedStar w0 names w1 => okWs w0 && names.all (fun (a, b, n) => okWs a && okWs b && okQN n) && okWs w1
+  | .mixedPlain w0 w1 => okWs w0 && okWs w1
+  | .children w0 f ch rest w1 o => okCp (.group w0 f ch rest w1 o)
+
+def okNameTok (n : Str) : Bool := !n.isEmpty && n.all P.isNameChar
+
+def isKwType : AttType → Bool
+  | .notation _ => false
+  | .enumeration _ => false
+  | _ => true
+
+def okAttType : CAttType → Bool
+  | .kw t => isKwType t
+  | .notationTy w0 w1 f rest w2 => okWs1 w0 && okWs w1 && okNameTok f && rest.all (fun (a, b, n) => okWs a && okWs b && okNameTok n) && okWs w2
+  | .enumeration w0 f rest w1 => okWs w0 && okNameTok f && rest.all (fun (a, b, n) => okWs a && okWs b && okNameTok n) && okWs w1
+
+def okDefault : CDefault → Bool
+  | .required => true
+  | .implied => true
+  | .value fixed q vals => (match fixed with | some w => okWs1 w | none => true) && isQuote q && vals.all (okPiece q) && !adjText vals
+
+def okAttDef (a : CAttDef) : Bool :=
+  okWs1 a.ws0 && okQN a.name && okWs1 a.ws1 && okAttType a.ty && okWs1 a.ws2 && okDefault a.dflt
+
+def okExtId : CExtId → Bool
+  | .sysId w q l => okWs1 w && isQuote q && l.all (P.except P.isChar [q])
+  | .pubId w qp p w2 qs l => okWs1 w && isQuote qp && p.all (P.except P.isPubidChar [qp]) && okWs1 w2 && isQuote qs && l.all (P.except P.isChar [qs])
+
+/-- a piece of an entity value written between quotes `q` -/
+def okPieceE (q : Char) : Piece → Bool
+  | .text s => !s.isEmpty && s.all (P.except P.isChar ['%', '&', q])
+  | .charRef d h => !d.isEmpty && d.all (if h then P.isHexDigit else P.isDigit)
+  | .entRef n => n.all P.isNameChar
+  | .peRef n => n.all P.isNameChar
+
+def okEntDef : CEntDef → Bool
+  | .internal q vals => isQuote q && vals.all (okPieceE q) && !adjText vals
+  | .external id nd => okExtId id && (match nd with | some (a, b, n) => okWs1 a && okWs1 b && okNameTok n | none => true)
+
+def okNotId : CNotId → Bool
+  | .ext id => okExtId id
+  | .pubOnly w q p => okWs1 w && isQuote q && p.all (P.except P.isPubidChar [q])
+
+def okDtdItem : CDtdItem → Bool
+  | .ws w => okWs1 w
+  | .comment s => okCommentBody s
+  | .pi t b => okPI t b
+  | .elementDecl w0 n w1 spec w2 => okWs1 w0 && okQN n && okWs1 w1 && okSpec spec && okWs w2
+  | .attlist w0 e defs w1 => okWs1 w0 && okQN e && defs.all okAttDef && okWs w1
+  | .entity w0 n w1 d w2 => okWs1 w0 && okNameTok n && okWs1 w1 && okEntDef d && okWs w2
+  | .notationDecl w0 n w1 id w2 => okWs1 w0 && okNameTok n && okWs1 w1 && okNotId id && okWs w2
+
+def isWsDtd : CDtdItem → Bool
+  | .ws _ => true
+  | _ => false
+
+def adjWsD : List CDtdItem → Bool
+  | [] => false
+  | m :: r => (isWsDtd m && (match r with | j :: _ => isWsDtd j | [] => false)) || adjWsD r
+
+def okDoctype (d : CDoctype) : Bool :=
+  okWs1 d.ws0 && okQN d.name && (match d.ext with | some (w, id) => okWs1 w && okExtId id | none => true) && okWs d.ws1 &&
+  (match d.subset with | some (items, w2) => items.all okDtdItem && !adjWsD items && okWs w2 | none => true)
+
+/-! ### nesting depth of content-model groups -/
+mutual
+def CCp.gdepth : CCp → Nat
+  | .name _ _ => 0
+  | .group _ f _ rest _ _ => max f.gdepth rest.gdepth + 1
+def CCpTail.gdepth : CCpTail → Nat
+  | .nil => 0
+  | .cons _ _ p t => max p.gdepth t.gdepth
+end
+
+def CSpec.gdepth : CSpec → Nat
+  | .children w0 f ch rest w1 o => (CCp.group w0 f ch rest w1 o).gdepth
+  | _ => 0
+
+def CDtdItem.gdepth : CDtdItem → Nat
+  | .elementDecl _ _ _ spec _ => spec.gdepth
+  | _ => 0
+
+def dtdDepth : List CDtdItem → Nat
+  | [] => 0
+  | i :: r => max i.gdepth (dtdDepth r)
+
+def CDoctype.gdepth (d : CDoctype) : Nat := match d.subset with | some (items, _) => dtdDepth items | none => 0
+
+/-- nesting depth of the content-model groups of the document's DOCTYPE -/
+def doctypeDepth : Option (CDoctype × List CMisc) → Nat
+  | none => 0
+  | some (dt, _) => dt.gdepth
+
 def isWsMisc : CMisc → Bool
   | .ws _ => true
   | _ => false
@@ -224,8 +554,6 @@ def isWsMisc : CMisc → Bool
 def adjWs : List CMisc → Bool
   | [] => false
   | m :: r => (isWsMisc m && (match r with | j :: _ => isWsMisc j | [] => false)) || adjWs r
-
-def isQuote (q : Char) : Bool := q == '"' || q == '\''
 
 /-- EncName ::= [A-Za-z] ([A-Za-z0-9._] | '-')* -/
 def okEncName : Str → Bool
@@ -242,9 +570,26 @@ def okDecl (x : CDecl) : Bool :=
    | some (w, e1, e2, q, _) => !w.isEmpty && okWs w && okWs e1 && okWs e2 && isQuote q) &&
   okWs x.wsEnd
 
+def doctypeText : Option (CDoctype × List CMisc) → Str
+  | none => []
+  | some (dt, ms) => dt.str ++ miscText ms
+
+def CDoc.str (d : CDoc) : Str :=
+  declText d.decl ++ (miscText d.before ++ (doctypeText d.doctype ++ (d.root.str ++ miscText d.after)))
+
+def doctypeErase : Option (CDoctype × List CMisc) → List TopItem
+  | none => []
+  | some (dt, ms) => TopItem.doctype dt.erase :: ms.filterMap CMisc.erase
+
+def CDoc.erase (d : CDoc) : IDoc :=
+  ⟨d.decl.map (fun x => '1' :: '.' :: x.minor), d.decl.bind (fun x => x.enc.map (fun e => e.2.2.2.2)),
+   d.decl.bind (fun x => x.sd.map (fun e => e.2.2.2.2)),
+   d.before.filterMap CMisc.erase ++ (doctypeErase d.doctype ++ ([.elem d.root.erase] ++ d.after.filterMap CMisc.erase))⟩
+
 def CDoc.ok (d : CDoc) : Bool :=
   (match d.decl with | none => true | some x => okDecl x) && d.before.all okMisc && !adjWs d.before && isElemItem d.root && okItem d.root &&
-  d.after.all okMisc && !adjWs d.after
+  d.after.all okMisc && !adjWs d.after &&
+  (match d.doctype with | some (dt, ms) => okDoctype dt && ms.all okMisc && !adjWs ms | none => true)
 
 /-! ### nesting depth of elements -/
 mutual
@@ -299,6 +644,62 @@ def canonTop : List TopItem → Option (List CMisc × CItem × List CMisc)
   | .pi t d :: r => (canonTop r).map fun (b, e, a) => (CMisc.pi t (canonPIBody d) :: b, e, a)
   | .doctype _ :: _ => none
 
+/-! ### the DOCTYPE declaration as the printer writes it -/
+def canonTokens : List Str → Str × List (Str × Str × Str)
+  | [] => ([], [])
+  | f :: rest => (f, rest.map fun n => ([], [], n))
+
+def canonAttType : AttType → CAttType
+  | .notation ns => .notationTy [' '] [] (canonTokens ns).1 (canonTokens ns).2 []
+  | .enumeration ts => .enumeration [] (canonTokens ts).1 (canonTokens ts).2 []
+  | t => .kw t
+
+def canonDefault : AttDefault → CDefault
+  | .required => .required
+  | .implied => .implied
+  | .value f vs => .value (if f then some [' '] else none) (canonQuote (printPieces vs)) vs
+
+def canonAttDef (a : AttDef) : CAttDef := ⟨[' '], a.name, [' '], canonAttType a.ty, [' '], canonDefault a.dflt⟩
+
+def canonExt : Option Str → Option Str → Option CExtId
+  | some p, some s => some (.pubId [' '] (canonQuote p) p [' '] (canonQuote s) s)
+  | none, some s => some (.sysId [' '] (canonQuote s) s)
+  | _, none => none
+
+def canonDtdItem : DtdItem → Option CDtdItem
+  | .attlist e defs => some (.attlist [' '] e (defs.map canonAttDef) [])
+  | .entity n (.internal vs) => some (.entity [' '] n [' '] (.internal (canonQuote (printPieces vs)) vs) [])
+  | .entity n (.external p s nd) =>
+      (canonExt p (some s)).map fun id => .entity [' '] n [' '] (.external id (nd.map fun x => ([' '], [' '], x))) []
+  | .notation n p s =>
+      match p, s with
+      | some p, none => some (.notationDecl [' '] n [' '] (.pubOnly [' '] (canonQuote p) p) [])
+      | p, s => (canonExt p s).map fun id => .notationDecl [' '] n [' '] (.ext id) []
+  | .pi t d => some (.pi t (canonPIBody d))
+
+def canonDtdItems : List DtdItem → Option (List CDtdItem)
+  | [] => some []
+  | i :: r => match canonDtdItem i, canonDtdItems r with
+      | some c, some cs => some (c :: cs)
+      | _, _ => none
+
+def canonDoctypeExt : Option Str → Option Str → Option (Option (Str × CExtId))
+  | none, none => some none
+  | p, s => (canonExt p s).map fun id => some ([' '], id)
+
+def wsBeforeSubset : List CDtdItem → Str
+  | [] => []
+  | _ => [' ']
+
+def subsetOf : List CDtdItem → Option (List CDtdItem × Str)
+  | [] => none
+  | is => some (is, [])
+
+def canonDoctype (d : Doctype) : Option CDoctype :=
+  match canonDoctypeExt d.pub d.sys, canonDtdItems d.kids with
+  | some ext, some items => some ⟨[' '], d.name, ext, wsBeforeSubset items, subsetOf items⟩
+  | _, _ => none
+
 /-- the XML declaration as the printer writes it: one space, no space around `=`, double quotes; `none` = the document
     cannot be written faithfully (a version that is not `1.n`, pseudo-attributes without a version, an empty encoding) -/
 def canonDecl (d : IDoc) : Option (Option CDecl) :=
@@ -309,10 +710,21 @@ def canonDecl (d : IDoc) : Option (Option CDecl) :=
                   d.standalone.map (fun b => ([' '], [], [], '"', b)), []⟩)
   | some _ => none
 
+/-- Misc items, optional DOCTYPE with Misc items, the element, Misc items -/
+def canonTopD : List TopItem → Option (List CMisc × Option (CDoctype × List CMisc) × CItem × List CMisc)
+  | [] => none
+  | .elem e :: r => (canonMiscs r).map fun after => ([], none, canonItem e, after)
+  | .comment s :: r => (canonTopD r).map fun (b, dt, e, a) => (CMisc.comment s :: b, dt, e, a)
+  | .pi t d :: r => (canonTopD r).map fun (b, dt, e, a) => (CMisc.pi t (canonPIBody d) :: b, dt, e, a)
+  | .doctype d :: r =>
+      match canonDoctype d, canonTop r with
+      | some cd, some (b2, e, a) => some ([], some (cd, b2), e, a)
+      | _, _ => none
+
 def canonDoc (d : IDoc) : Option CDoc :=
   match canonDecl d with
   | none => none
-  | some decl => (canonTop d.kids).map fun (b, e, a) => ⟨decl, b, e, a⟩
+  | some decl => (canonTopD d.kids).map fun (b, dt, e, a) => ⟨decl, b, e, a, dt⟩
 
 /-- the data of a PI does not start with white space (the parser gives that white space to the separator) -/
 def piFaithful : Option Str → Bool
@@ -329,9 +741,14 @@ def faithfulItems : List Item → Bool
   | i :: r => faithfulItem i && faithfulItems r
 end
 
+def faithfulDtd : DtdItem → Bool
+  | .pi _ d => piFaithful d
+  | _ => true
+
 def faithfulTop : TopItem → Bool
   | .pi _ d => piFaithful d
   | .elem e => faithfulItem e
+  | .doctype d => d.kids.all faithfulDtd
   | _ => true
 
 end XmlRs
